@@ -130,6 +130,9 @@ class GraphAdapter(Adapter):
             elif self.sverif and edge_name == "req":
                 k, lim = parameters.get("k"), parameters.get("lim")
                 yield ctx, iter([t for t in self.out(v, "next") if ref_cmp_ge(self.prop(t, "id"), k) and (lim is None or ref_cmp_ge(lim, self.prop(t, "id")))])
+            elif self.sverif and edge_name == "opt":
+                x, y = parameters.get("x"), parameters.get("y")
+                yield ctx, iter([t for t in self.out(v, "next") if (x is None or ref_cmp_ge(self.prop(t, "id"), x)) and (y is None or ref_eq(self.prop(t, "s"), y))])
             else:
                 yield ctx, iter(self.out(v, edge_name))
 
